@@ -199,7 +199,7 @@ namespace detail
 		vec<3, T, Q> const& scale, qua<T, Q> const& orientation, vec<3, T, Q> const& translation,
 		vec<3, T, Q> const& skew, vec<4, T, Q> const& perspective)
 	{
-		glm::mat4 m = glm::mat4(1.f);
+		mat<4, 4, T, Q> m(static_cast<T>(1));
 
 		m[0][3] = perspective.x;
 		m[1][3] = perspective.y;
@@ -210,19 +210,19 @@ namespace detail
 		m *= glm::mat4_cast(orientation);
 
 		if (abs(skew.x) > static_cast<T>(0)) {
-			glm::mat4 tmp(1.f);
+			mat<4, 4, T, Q> tmp(static_cast<T>(1));
 			tmp[2][1] = skew.x;
 			m *= tmp;
 		}
 
 		if (abs(skew.y) > static_cast<T>(0)) {
-			glm::mat4 tmp(1.f);
+			mat<4, 4, T, Q> tmp(static_cast<T>(1));
 			tmp[2][0] = skew.y;
 			m *= tmp;
 		}
 
 		if (abs(skew.z) > static_cast<T>(0)) {
-			glm::mat4 tmp(1.f);
+			mat<4, 4, T, Q> tmp(static_cast<T>(1));
 			tmp[1][0] = skew.z;
 			m *= tmp;
 		}
